@@ -27,7 +27,9 @@ let () =
   let ff = Array.length a > 6 && a.(6) = "failfull" in
   let nn = Array.length nps in
   let nt = nn + 1 in
-  let init = ev_init kind (n_of_int cap) tcap lp (fun u -> let i = int_of_nat u in if i < nn then nps.(i) else []) (fun _ -> ff) in
+  let ((pol_model, pol_all), pol_one) = ev_pols in
+  let pol = match (try Sys.getenv "EXPLORE_POL" with Not_found -> "model") with "all" -> pol_all | "one" -> pol_one | _ -> pol_model in
+  let init = ev_init kind (n_of_int cap) tcap pol lp (fun u -> let i = int_of_nat u in if i < nn then nps.(i) else []) (fun _ -> ff) in
   let key ((g, ls) : (egst, elst) cfg) : string =
     let ((_, _), nw) = ev_obs g in
     let ws = List.init (int_of_n nw) (fun w -> ev_words g (n_of_int w)) in
